@@ -132,8 +132,14 @@ def run_op(cfg: Dict[str, Any]) -> Dict[str, Any]:
         except Cut as c:
             outcome = {'kind': 'cut', 'ip': c.data.get('ip'), 'ops': c.data.get('ops'), 'ring_writes': c.data.get('ring_writes')}
         except MemoryViolation as mv:
-            mem_viol.append({'what': mv.what, 'model': E.model_values(mv.model) if mv.model is not None else
-                             (E.model_values(E.last_model()) if E._check() == 'sat' else {}), 'tag': tag})
+            m_ = mv.model if mv.model is not None else (E.last_model() if E._check() == 'sat' else None)
+            img = None
+            if m_ is not None:
+                try:
+                    img = image_from_model(m_, ns, IP, world, w)
+                except Exception:  # noqa: BLE001 - the image is only needed for the replay
+                    img = None
+            mem_viol.append({'what': mv.what, 'model': E.model_values(m_) if m_ is not None else {}, 'tag': tag, 'detail': img})
             E.obligations += 1
             return
         # ------------------------------------------------ the reference: pyspec on the abstract memory
@@ -236,7 +242,7 @@ def run_op(cfg: Dict[str, Any]) -> Dict[str, Any]:
     viol, replayed = [], 0
     seen = set()
     from fjv.llsx import native_replay
-    for f in E.failed + [{'label': f"{tag}: memory safety: {v['what']}", 'detail': None, 'model': v['model'], 'memsafety': True} for v in mem_viol]:
+    for f in E.failed + [{'label': f"{tag}: memory safety: {v['what']}", 'detail': v.get('detail'), 'model': v['model'], 'memsafety': True} for v in mem_viol]:
         key = f['label'].split(': ', 1)[1][:60]
         if key in seen:
             continue
@@ -247,7 +253,7 @@ def run_op(cfg: Dict[str, Any]) -> Dict[str, Any]:
         rep = native_replay.replay_case(case) if f.get('detail') else {'differs': False, 'why': 'no concrete image for this obligation'}
         if rep.get('differs'):
             viol.append({'label': f['label'], 'signature': rep.get('signature', f"native:{loop}:{mode}:w{w}:{key}"),
-                         'replay': common.write_replay(cfg.get('prop', 'C01'), tag + key[:30], case), 'detail': rep})
+                         'replay': common.write_replay(cfg.get('prop', 'C01'), tag + key[:30] + f'_{abs(hash(key)) % 10**6}', case), 'detail': rep})
         else:
             incon.append(f"{f['label']}: counterexample did not reproduce on a fresh build of the C engine: {str(rep)[:500]}")
     return {'configs': 1, **E.stats(), 'samples': samples, 'violations': viol, 'inconclusive': incon, 'replayed': replayed,
@@ -261,6 +267,45 @@ def phi_names(fr: Frame, block: str) -> List[str]:
 
 def all_phi_bases(fr: Frame) -> set:
     return {i.dest.lstrip('%').split('.')[0] for b in fr.fn.blocks.values() for i in b.instrs if i.op == 'phi'}
+
+
+def image_from_model(m: Any, ns: Any, IP: Any, world: Any, w: int) -> Dict[str, Any]:
+    """concrete replay image for a path that ended in a memory-safety violation: the reference machine is run concretely
+    on the model, every word it asks for is read out of the model's abstract memory"""
+    ev = lambda t: m.eval(t, model_completion=True).as_long()  # noqa: E731
+    segs = [[ev(s), ev(e)] for s, e in ns.segs]
+    orig: Dict[int, int] = {}
+
+    class LazyMem:
+        def __init__(self) -> None:
+            self.cur: Dict[int, int] = {}
+
+        def valid(self, wa: int) -> bool:
+            return any(s <= wa < e for s, e in segs)
+
+        def load(self, wa: int) -> int:
+            if wa not in self.cur:
+                self.cur[wa] = orig[wa] = ev(z3.Select(ns.MA, z3.BitVecVal(wa, 64)))
+            return self.cur[wa]
+
+        def store(self, wa: int, v: int) -> None:
+            self.load(wa)
+            self.cur[wa] = v
+    bits = []
+    for a, b in zip(world.avail, world.bits):
+        if not z3.is_true(m.eval(a, model_completion=True)):
+            break
+        bits.append(z3.is_true(m.eval(b, model_completion=True)))
+    ipv = ev(IP)
+    mem = LazyMem()
+    pyspec.step(w, mem, pyspec.ListIO(bits), ipv)
+    for d in range(4):          # the op's own words, even where the reference stopped early
+        k = (ipv >> (w.bit_length() - 1)) + d
+        if mem.valid(k):
+            mem.load(k)
+    return {'w': w, 'segments': segs, 'words': {str(k): v for k, v in orig.items()}, 'ip': ipv, 'flat_count': ev(ns.FC),
+            'inputs': [[z3.is_true(m.eval(a, model_completion=True)), z3.is_true(m.eval(b, model_completion=True))]
+                       for a, b in zip(world.avail, world.bits)]}
 
 
 def model_image(m: Any, ns: Any, smem: Any, IP: Any, OPS: Any, IL: Any, world: Any, w: int) -> Dict[str, Any]:
@@ -312,7 +357,7 @@ def configs_for(prop: str, tier: str) -> List[Dict[str, Any]]:
         cfgs.append({'w': 32, 'off': 0, 'loop': 'run_generic_loop', 'mode': 'paged', 'op_page': 17})
         cfgs += [{'w': 16, 'off': 0, 'loop': 'run_generic_loop', 'mode': 'flat', 'ring': 3},
                  {'w': 8, 'off': 1, 'loop': 'run_generic_loop', 'mode': 'flat', 'ring': 1},
-                 {'w': 16, 'off': 1, 'loop': 'run_generic_loop', 'mode': 'hybrid', 'ring': 1},
+                 {'w': 16, 'off': 0, 'loop': 'run_generic_loop', 'mode': 'hybrid', 'ring': 1},
                  {'w': 32, 'off': 0, 'loop': 'run_generic_loop', 'mode': 'paged', 'ring': 2, 'op_page': 1},
                  {'w': 16, 'off': 0, 'loop': 'run_measured_loop', 'mode': 'flat'},
                  {'w': 16, 'off': 0, 'loop': 'run_measured_loop', 'mode': 'paged'},
